@@ -84,7 +84,7 @@ BAnd(x, y) == IF x = 1 /\ y = 1 THEN 1 ELSE 0
 BXor(x, y) == IF x # y THEN 1 ELSE 0
 Zip(a, b, f(_, _)) == [i \in 1..64 |-> f(a[i], b[i])]
 Shl(bs, k) == [i \in 1..64 |-> IF i + k <= 64 THEN bs[i + k] ELSE 0]
-Shr(bs, k) == [i \in 1..64 |-> IF i - k >= 1 THEN bs[i - k] ELSE 0]      \* only used for non-negative values
+Sar(bs, k) == [i \in 1..64 |-> IF i - k >= 1 THEN bs[i - k] ELSE bs[1]]  \* arithmetic right shift: the sign bit fills
 Rol(bs, k) == [i \in 1..64 |-> bs[((i - 1 + k) % 64) + 1]]
 Ror(bs, k) == [i \in 1..64 |-> bs[((i - 1 - k + 64) % 64) + 1]]
 
@@ -175,6 +175,14 @@ Order(l, r) ==
     [] l.t = "FLOAT" /\ IsNum(r)        -> LET b == AsF(r) IN IF Bad(b) THEN b ELSE
                                             LET c == FCmp(l, b) IN IntV(IF c < 0 THEN -1 ELSE IF c > 0 THEN 1 ELSE 0)
     [] l.t = "RTIME" /\ r.t = "RTIME"   -> IntV(IF l.ms < r.ms THEN -1 ELSE IF l.ms > r.ms THEN 1 ELSE 0)
+    \* RTIME against a number (a count of seconds), in either operand order.  The reference does not say at which
+    \* resolution such a comparison is made (falco: whole seconds) - the VALUE computed here (exact) is therefore not
+    \* compared by the replay; what the property demands is the duality law, and that is what the mixed-type cells
+    \* of EvalGen.tla check on the code (result variables are "free", the law b1 = b2 is not).
+    [] l.t = "RTIME" /\ IsNum(r)        -> LET b == AsF(r) IN IF Bad(b) \/ Abs(l.ms) >= FLim THEN OorV ELSE
+                                            LET c == l.ms * Pow2(b.e) - b.n * 1000 IN IntV(IF c < 0 THEN -1 ELSE IF c > 0 THEN 1 ELSE 0)
+    [] IsNum(l) /\ r.t = "RTIME"        -> LET a == AsF(l) IN IF Bad(a) \/ Abs(r.ms) >= FLim THEN OorV ELSE
+                                            LET c == a.n * 1000 - r.ms * Pow2(a.e) IN IntV(IF c < 0 THEN -1 ELSE IF c > 0 THEN 1 ELSE 0)
     [] l.t = "BITS" \/ r.t = "BITS"     -> OorV
     [] OTHER                            -> UnspecV
 EqVal(l, r) ==
@@ -263,10 +271,15 @@ IntInt(op, l, r) ==       \* INTEGER op= INTEGER
        NormInt(Zip(BitsOf(l), BitsOf(r), LAMBDA x, y : IF op = "|=" THEN BOr(x, y) ELSE IF op = "&=" THEN BAnd(x, y) ELSE BXor(x, y)))
   ELSE IF op \in {"<<=", ">>=", "rol=", "ror="} THEN
        (IF r.t = "BITS" THEN UnspecV
-        ELSE CASE op = "<<="  -> IF r.i < 0 \/ r.i > 63 THEN UnspecV ELSE NormInt(Shl(BitsOf(l), r.i))
-               [] op = ">>="  -> IF r.i < 0 \/ r.i > 63 \/ BitsOf(l)[1] = 1 THEN UnspecV ELSE NormInt(Shr(BitsOf(l), r.i))
-               [] op = "rol=" -> IF r.i < 0 \/ r.i > 64 THEN UnspecV ELSE NormInt(Rol(BitsOf(l), r.i))
-               [] op = "ror=" -> IF r.i < 0 \/ r.i > 64 THEN UnspecV ELSE NormInt(Ror(BitsOf(l), r.i)))
+        \* A shift / rotation by n is n shifts / rotations by one (checked below: ShiftLaws).  Hence `<<=` by 64 or
+        \* more leaves 0, `>>=` - INTEGER is signed, the shift is arithmetic - by 64 or more leaves 0 for a
+        \* non-negative and -1 for a negative value, rotations count modulo 64.  A negative count is not described.
+        ELSE IF r.i < 0 THEN UnspecV
+        ELSE LET k == IF r.i > 64 THEN 64 ELSE r.i IN
+             CASE op = "<<="  -> NormInt(Shl(BitsOf(l), k))
+               [] op = ">>="  -> NormInt(Sar(BitsOf(l), k))
+               [] op = "rol=" -> NormInt(Rol(BitsOf(l), r.i % 64))
+               [] op = "ror=" -> NormInt(Ror(BitsOf(l), r.i % 64)))
   ELSE IF op = "+=" THEN AddV(l, r)
   ELSE IF op = "-=" THEN SubV(l, r)
   ELSE IF l.t = "BITS" \/ r.t = "BITS" THEN OorV
@@ -451,7 +464,7 @@ Run(ss, M) == IF Len(ss) = 0 \/ M.st # "ok" THEN <<>>
 (* LAWS the evaluator itself must satisfy (checked by TLC on every value    *)
 (* pair of the cell enumeration): duality of the comparison operators.      *)
 LawVals == << IntV(-7), IntV(-1), IntV(0), IntV(1), IntV(2), IntV(63), FloatV(-3, 1), FloatV(0, 0), FloatV(1, 1), FloatV(3, 1),
-              RTimeV(0), RTimeV(1500), RTimeV(2000), StrV(<<>>), StrV(<<"a">>), StrV(<<"a", "b">>), NotSetV, BoolV(TRUE), BoolV(FALSE) >>
+              RTimeV(0), RTimeV(500), RTimeV(999), RTimeV(1000), RTimeV(1500), RTimeV(2000), RTimeV(2500), RTimeV(-1500), FloatV(5, 1), StrV(<<>>), StrV(<<"a">>), StrV(<<"a", "b">>), NotSetV, BoolV(TRUE), BoolV(FALSE) >>
 Dual(op) == CASE op = "<" -> ">" [] op = ">" -> "<" [] op = "<=" -> ">=" [] op = ">=" -> "<="
 Laws ==
   \A ia \in 1..Len(LawVals), ib \in 1..Len(LawVals) :
@@ -461,6 +474,14 @@ Laws ==
          (~Bad(x) /\ ~Bad(y)) => x = y
     /\ LET x == Compare("==", a, b)  y == Compare("!=", a, b) IN (~Bad(x) /\ ~Bad(y)) => (x.b = ~y.b)
     /\ LET x == Compare("<", a, b)  y == Compare(">=", a, b) IN (~Bad(x) /\ ~Bad(y)) => (x.b = ~y.b)
+\* a shift by n is n shifts by one; in particular x >>= 64 is (x >>= 63) >>= 1
+ShiftSamples == <<Bits(0), Bits(1), Bits(5), Bits(-1), Bits(-7), Bits(-64), MinBits, Flip(MinBits)>>
+ShiftLaws ==
+  \A i \in 1..Len(ShiftSamples) :
+    LET x == ShiftSamples[i] IN
+    /\ Sar(x, 64) = Sar(Sar(x, 63), 1) /\ Shl(x, 64) = Shl(Shl(x, 63), 1)
+    /\ \A k \in {1, 5, 63} : Sar(x, k + 1) = Sar(Sar(x, k), 1) /\ Shl(x, k + 1) = Shl(Shl(x, k), 1) /\ Rol(x, (k + 1) % 64) = Rol(Rol(x, k), 1)
+    /\ Rol(x, 65 % 64) = Rol(x, 1) /\ Ror(Rol(x, 7), 7) = x
 ReLaws ==
   \A s \in {<<>>, <<"a">>, <<"a", "b">>, <<"b", "a", "b">>} :
     \A re \in [a : BOOLEAN, z : BOOLEAN, lit : {<<>>, <<"a">>, <<"a", "b">>, <<"b">>}] :
